@@ -5,10 +5,11 @@
    [Index idx a] is torch indexing ([res_shape]/[src_of], validated against real torch on every run);
    [shape_of]/[at_] give the batch size and, for every position, which element of which member sits there.
    Model (Model/C08_Lazy.v, C08_Write.v): what LazyStackedTensorDict builds out of its members. *)
-From Coq Require Import ZArith List Bool.
+From Coq Require Import ZArith List Bool Lia.
 Import ListNotations.
 From TD Require Import Spec.PySlice Spec.C08_Dense Model.C08_Lazy Model.C08_Write
-  Proofs.C08_CoordP Proofs.C08_IndexP Proofs.C08_EllP Proofs.C08_AdvP Proofs.C08_ShapeP Proofs.C08_CatP Proofs.C08_WriteP.
+  Proofs.C08_CoordP Proofs.C08_IndexP Proofs.C08_EllP Proofs.C08_AdvP Proofs.C08_ShapeP Proofs.C08_CatP Proofs.C08_WriteP
+  Proofs.C08_TenP Proofs.C08_TenWP.
 Open Scope Z_scope.
 
 (* ---- the stack itself ------------------------------------------------------------------------------------- *)
@@ -92,7 +93,29 @@ Theorem C08_getitem_adv_before_stack_dim : forall fuel sd bs0 parts bs p1 A p2 x
 Proof. exact getitem_adv_before. Qed.
 Print Assumptions C08_getitem_adv_before_stack_dim.
 
-(* the full statement (any single advanced index: also ON the stack dim, masks reaching across it, nested stacks) is NOT
+(* split_index_adv_on_stack, integer tensor / list / range [full for this placement]: ONE integer tensor of ANY rank >= 1
+   and any values (negative ones included) sitting ON the stack dim, ints / slices / None before and after it, members
+   nested to ANY depth: _split_index's nested list of (member, sub-index) + __getitem__'s recompose denote dense[idx] --
+   the tensor's dims land where the stack dim was (stack_dim - num_single + num_none), the member is chosen by the VALUE *)
+Theorem C08_getitem_tensor_on_stack_dim : forall fuel sd bs0 parts bs pre t0 tsh vals post a' rsd,
+  wf_tree (Stack sd bs0 parts) bs -> basic pre -> consumed pre = sd -> basic post ->
+  res_shape (pre ++ ITen (t0 :: tsh) vals :: post) bs = Some rsd ->
+  lz_getitem fuel (Stack sd bs0 parts) (pre ++ ITen (t0 :: tsh) vals :: post) = Ok a' ->
+  equiv a' (Index (pre ++ ITen (t0 :: tsh) vals :: post) (Stack sd bs0 parts)).
+Proof. exact getitem_ten_on_stack. Qed.
+Print Assumptions C08_getitem_tensor_on_stack_dim.
+
+(* what _split_index returns for it: the nested list tolist() of the tensor, the shared sub-index, the counters *)
+Theorem C08_split_index_tensor_on_stack_dim : forall sd n shape pre tsh vals post,
+  basic pre -> consumed pre = sd -> Forall post_item post -> one_adv (pre ++ ITen tsh vals :: post) ->
+  (lenZ vals =? prodZ tsh) = true ->
+  split_index sd n shape (pre ++ ITen tsh vals :: post) =
+  Ok (mk_split_nd (KNest (to_nest tsh vals) (pre ++ post)) (count_int pre) (count_none pre)).
+Proof. exact split_index_ten. Qed.
+Print Assumptions C08_split_index_tensor_on_stack_dim.
+
+(* the full statement (any single advanced index: masks on the stack dim or reaching across it, advanced index before/after
+   the stack dim of NESTED stacks) is NOT
    proved: those placements are covered by the correspondence run only; the repairs C08-D28/D29/D30/D34 of those paths are in the model and exercised by the correspondence run *)
 Definition C08_getitem_one_adv_full_statement : Prop :=
   forall fuel self bs idx a' rsd,
@@ -122,6 +145,34 @@ Theorem C08_setitem_tensor_alone : forall fuel bs0 parts bs k vals v vsh plan,
   exists ms, Forall2 (fun j m => member parts j = Ok m) vals ms /\ plan = tensor_plan_of ms v.
 Proof. exact setitem_tensor_alone. Qed.
 Print Assumptions C08_setitem_tensor_alone.
+
+(* write_through, integer tensor / list / range ON the stack dim [full for flat stacks of plain members]: every rank >= 1 of
+   the tensor, every stack dim, ints / slices / None before and after it.  The plan is ONE in-place write per position p of
+   T: into the member chosen by the VALUE T[p] (ms lists them row-major), at the sub-index the read uses, of the slice
+   V[.., p, ..] chosen by the POSITION p (dim = where the read puts the tensor's dims); no member object is replaced.
+   [ten_plan] (Proofs/C08_TenWP.v): rank 1 = [write_plan_of]; rank >= 2 = row i of T served with V[.., i, ..], recursively *)
+Theorem C08_setitem_tensor_on_stack_dim : forall fuel sd bs0 parts bs pre t0 tsh vals post v vsh plan,
+  parts <> [] -> Forall (fun p => shape_of p = Some bs /\ is_stack p = false) parts -> (sd <= List.length bs)%nat ->
+  Forall (fun s => 0 <= s) bs ->
+  basic pre -> consumed pre = sd -> basic post ->
+  shape_of v = Some vsh -> res_shape (pre ++ ITen (t0 :: tsh) vals :: post) (insert_at sd (lenZ parts) bs) = Some vsh ->
+  lz_setitem (S (S fuel)) (Stack sd bs0 parts) (pre ++ ITen (t0 :: tsh) vals :: post) v = Ok plan ->
+  exists ms, Forall2 (fun j m => member parts j = Ok m) vals ms /\
+             plan = ten_plan (pre ++ post) (rdims_l pre) (t0 :: tsh) ms v.
+Proof. exact setitem_ten_plan. Qed.
+Print Assumptions C08_setitem_tensor_on_stack_dim.
+
+(* rank 1 spelled out (the region of the seeded slip C08-1): member T[i] <- V[.., i, ..] *)
+Theorem C08_setitem_tensor1_on_stack_dim : forall fuel sd bs0 parts bs pre t0 vals post v vsh plan,
+  parts <> [] -> Forall (fun p => shape_of p = Some bs /\ is_stack p = false) parts -> (sd <= List.length bs)%nat ->
+  Forall (fun s => 0 <= s) bs ->
+  basic pre -> consumed pre = sd -> basic post ->
+  shape_of v = Some vsh -> res_shape (pre ++ ITen [t0] vals :: post) (insert_at sd (lenZ parts) bs) = Some vsh ->
+  lz_setitem (S (S fuel)) (Stack sd bs0 parts) (pre ++ ITen [t0] vals :: post) v = Ok plan ->
+  exists ms, Forall2 (fun j m => member parts j = Ok m) vals ms /\
+             plan = write_plan_of ms (pre ++ post) (rdims_l pre) v.
+Proof. exact setitem_ten1_plan. Qed.
+Print Assumptions C08_setitem_tensor1_on_stack_dim.
 
 (* ---- shape operations -------------------------------------------------------------------------------------- *)
 (* lazy_shape_ops / transpose [full for flat stacks] (after fix C08-D26): every rank, every stack dim, EVERY pair of dims *)
@@ -210,3 +261,26 @@ Example C08_ex_adv_before :
 Proof. cbn zeta. split; [constructor|]. split; [reflexivity|]. eexists. split; [vm_compute; reflexivity|reflexivity]. Qed.
 Example C08_ex_cat : cat_out_slices 3 0 [1; 1; 1] = [(0, 1); (1, 2); (2, 3)] /\ cat_out_slices_gen false 3 0 [1; 1; 1] = [(0, 1); (1, 2); (3, 3)].
 Proof. split; reflexivity. Qed.
+(* a rank-2 tensor with negative values on the stack dim of a stack of stacks, None before and an int after it *)
+Example C08_ex_tensor_on_stack_dim :
+  let t := Stack 1 [2; 1] [Stack 1 [2] [Leaf 0 [2]]; Stack 1 [2] [Leaf 1 [2]]; Stack 1 [2] [Leaf 2 [2]]] in
+  let idx := [INone; ISl None None None] ++ ITen [2; 2] [2; -1; 0; -3] :: [IInt 0] in
+  wf_tree t [2; 3; 1] /\ res_shape idx [2; 3; 1] = Some [1; 2; 2; 2] /\
+  exists a', lz_getitem 4 t idx = Ok a' /\ shape_of a' = Some [1; 2; 2; 2] /\
+             map (at_ a') (all_indices [1; 2; 2; 2]) =
+             [Some (2%nat, [0]); Some (2%nat, [0]); Some (0%nat, [0]); Some (0%nat, [0]);
+              Some (2%nat, [1]); Some (2%nat, [1]); Some (0%nat, [1]); Some (0%nat, [1])].
+Proof.
+  cbn zeta. split.
+  { apply (wf_stack 1 [2; 1] [Stack 1 [2] [Leaf 0 [2]]; Stack 1 [2] [Leaf 1 [2]]; Stack 1 [2] [Leaf 2 [2]]] [2; 1]);
+      [discriminate| |cbn; lia].
+    apply wf_cons; [apply (wf_stack 1 [2] [Leaf 0 [2]] [2]); [discriminate|wf_lit|cbn; lia]|].
+    apply wf_cons; [apply (wf_stack 1 [2] [Leaf 1 [2]] [2]); [discriminate|wf_lit|cbn; lia]|].
+    apply wf_cons; [apply (wf_stack 1 [2] [Leaf 2 [2]] [2]); [discriminate|wf_lit|cbn; lia]|]. apply wf_nil. }
+  split; [reflexivity|]. eexists. split; [vm_compute; reflexivity|]. split; reflexivity.
+Qed.
+(* the input of the seeded slip C08-1: lazy[[1, 2, 0], 1:] = V -- member 1 gets V[0], member 2 gets V[1], member 0 gets V[2] *)
+Example C08_ex_tensor_write_routed_by_value :
+  exists plan, run_setitem 3 (Stack 0 [3] [Leaf 0 [3]; Leaf 1 [3]; Leaf 2 [3]]) ([] ++ ITen [3] [1; 2; 0] :: [ISl (Some 1) None None]) [3; 2] = Ok plan /\
+    plan = write_plan_of [Leaf 1 [3]; Leaf 2 [3]; Leaf 0 [3]] [ISl (Some 1) None None] 0 (Leaf VID [3; 2]).
+Proof. eexists. split; [vm_compute; reflexivity|reflexivity]. Qed.
